@@ -12,6 +12,67 @@ from vf import check
 from vf.model import Repo
 
 TEMPS = '--temps' in sys.argv
+INVERT = '--invert' in sys.argv       # if c: A else: B  ->  if not c: B else: A   (no other noise)
+NESTED = '--rename-nested' in sys.argv  # every nested function f gets the name f_impl (no other noise)
+
+
+def _negate(t):
+  flip = {ast.Is: ast.IsNot, ast.IsNot: ast.Is, ast.Eq: ast.NotEq, ast.NotEq: ast.Eq, ast.In: ast.NotIn, ast.NotIn: ast.In}
+  if isinstance(t, ast.UnaryOp) and isinstance(t.op, ast.Not):
+    return t.operand
+  if isinstance(t, ast.Compare) and len(t.ops) == 1 and type(t.ops[0]) in flip:
+    return ast.Compare(left=t.left, ops=[flip[type(t.ops[0])]()], comparators=t.comparators)
+  return ast.UnaryOp(op=ast.Not(), operand=t)
+
+
+class Invert(ast.NodeTransformer):
+  def visit_If(self, node):
+    self.generic_visit(node)
+    if node.orelse and not (len(node.orelse) == 1 and isinstance(node.orelse[0], ast.If)):
+      node.test, node.body, node.orelse = _negate(node.test), node.orelse, node.body
+    return node
+
+  def visit_IfExp(self, node):
+    self.generic_visit(node)
+    node.test, node.body, node.orelse = _negate(node.test), node.orelse, node.body
+    return node
+
+
+class RenameNested(ast.NodeTransformer):
+  def __init__(self):
+    self.depth = 0
+    self.maps = [{}]
+
+  def visit_ClassDef(self, node):
+    d, self.depth = self.depth, 0
+    self.generic_visit(node)
+    self.depth = d
+    return node
+
+  def visit_FunctionDef(self, node):
+    if self.depth > 0:
+      node.name = self.maps[-1].get(node.name, node.name)
+    m = {}
+    for ch in ast.walk(node):
+      if isinstance(ch, (ast.FunctionDef, ast.AsyncFunctionDef)) and ch is not node:
+        m[ch.name] = ch.name + '_impl'
+    # only direct children get renamed in this scope
+    direct = {ch.name for ch in node.body if isinstance(ch, (ast.FunctionDef, ast.AsyncFunctionDef))}
+    m = {k: v for k, v in m.items() if k in direct}
+    self.maps.append(m)
+    self.depth += 1
+    self.generic_visit(node)
+    self.depth -= 1
+    self.maps.pop()
+    return node
+  visit_AsyncFunctionDef = visit_FunctionDef
+
+  def visit_Name(self, node):
+    for m in reversed(self.maps):
+      if node.id in m:
+        node.id = m[node.id]
+        break
+    return node
 
 
 class Noise(ast.NodeTransformer):
@@ -67,7 +128,12 @@ class Noise(ast.NodeTransformer):
 
 def noisy(path):
   tree = ast.parse(open(path, encoding='utf-8').read())
-  tree = Noise().visit(tree)
+  if INVERT:
+    tree = Invert().visit(tree)
+  elif NESTED:
+    tree = RenameNested().visit(tree)
+  else:
+    tree = Noise().visit(tree)
   ast.fix_missing_locations(tree)
   out = ast.unparse(tree)
   compile(out, path, 'exec', dont_inherit=True)
